@@ -58,11 +58,12 @@ TextEv(t) ==
 
 (* noise ids: 0 none; otherwise +-1e-12 / +-1e-17 on the component pattern; at most 1e-9 in all *)
 ShiftEv(t) ==
-  LET op == Dec(t.c)
-      want == IF t.route = "inv" THEN Enc(Inverted(op)) ELSE t.c
+  LET sh == IF t.route \in {"sub", "isub"} THEN [i \in Idx |-> -t.kv12[i]] ELSE t.kv12     \* twelfths; whole vectors drop out
+      op == Shift(Dec(t.c), sh)
+      want == IF t.route = "inv" THEN Enc(Inverted(op)) ELSE Enc(op)
       kf == IF t.noise # 0 THEN " KF=C11-noise-below-integer" ELSE ""
   IN
-  IF ~(InRange(t.c) /\ t.route \in {"ctor", "add", "sub", "inv", "func"}) THEN "OOD route" ELSE
+  IF ~(InRange(t.c) /\ t.route \in {"ctor", "add", "sub", "inv", "func", "iadd", "isub"}) THEN "OOD route" ELSE
   IF t.exc # "" THEN "REJECT Raised" \o kf ELSE
   IF ~InRange(t.code) THEN "REJECT CodeRange" \o kf ELSE
   IF t.code # want THEN "REJECT ShiftCode" \o kf ELSE
